@@ -76,7 +76,7 @@ fn classify(p: &Probe) -> String {
         Fate::Exited(0) if p.has("continued") => "continues".into(),
         Fate::Exited(c) => format!("exited({})", c),
         Fate::Signaled(s) => format!("terminated-by({})", s),
-        Fate::Stopped(_) => "stopped".into(),
+        Fate::Stopped(_) => format!("stopped, after SIGCONT: {}", match &p.after_cont { Some(Fate::Exited(0)) if p.has("continued") => "continues".to_string(), Some(f) => f.describe(), None => "?".to_string() }),
         Fate::TimedOut => "timed-out".into(),
     }
 }
